@@ -161,6 +161,41 @@ var makers = []maker{
 			return fmt.Sprintf("%q %s", z.Shift(), errText(z.Err())), true
 		}
 	}},
+	{"buffer.StreamLexer(default size)", "buffer", "any", func(in, prog []byte) stepper {
+		z := buffer.NewStreamLexer(&chunkReader{b: cp(in), prog: append([]byte{255, 254}, prog...), big: true})
+		var pending []int
+		var held [][]byte
+		var heldCopy []string
+		steps := 0
+		return func() (string, bool) {
+			for ; steps < 3*len(in)+10; steps++ {
+				c := z.Peek(0)
+				if c == 0 && z.Err() != nil {
+					break
+				}
+				z.Move(1)
+				if c == ' ' || c == '\n' || c == ';' || c == ',' || c == '>' || steps%61 == 60 {
+					n := z.ShiftLen()
+					tok := z.Shift()
+					out := fmt.Sprintf("%q", tok)
+					held, heldCopy = append(held, tok), append(heldCopy, string(tok))
+					pending = append(pending, n)
+					if len(pending) > 2 {
+						z.Free(pending[0])
+						pending, held, heldCopy = pending[1:], held[1:], heldCopy[1:]
+					}
+					for i := range held {
+						if string(held[i]) != heldCopy[i] {
+							out += fmt.Sprintf(" HELD TOKEN CHANGED %q -> %q", heldCopy[i], held[i])
+						}
+					}
+					steps++
+					return out, false
+				}
+			}
+			return fmt.Sprintf("%q %s", z.Shift(), errText(z.Err())), true
+		}
+	}},
 	{"html.EscapeAttrVal", "html", "html", func(in, prog []byte) stepper {
 		return twoPhase(func() func() string {
 			var buf []byte
